@@ -49,7 +49,7 @@ package handlers
 //@   implements tq.Handler.Handle
 //@   taints[C18] request.Body 2
 //@   ensures[C10] ghost.authenPass != old(ghost.authenPass) ==> ghost.hcalls >= old(ghost.hcalls) + 2
-//@   before[C10] ResponseLogger.Handle : ghost.lookups == old(ghost.lookups) + 1 && ghost.lookedUp == seqof(a.username) && len(body.UserMessage) > 0
+//@   before[C10] ResponseLogger.Handle : ghost.lookups == old(ghost.lookups) + 1 && ghost.lookedUp == seqof(a.username) && len(body.UserMessage) > 0 && body.Flags mod 2 == 0
 //@   requires a != nil && a.loggerProvider != nil && a.configProvider != nil && a.recorderWriter != nil
 
 //@ func (a *AuthenticatePAP) Handle(response tq.Response, request tq.Request)
